@@ -1188,8 +1188,34 @@ impl TransportManager {
                             }
                         }
                         InnerTransportManagerCommand::DialAddress { address } => {
-                            if let Err(error) = self.dial_address(address).await {
-                                tracing::debug!(target: LOG_TARGET, ?error, "failed to dial peer")
+                            if let Err(error) = self.dial_address(address.clone()).await {
+                                tracing::debug!(target: LOG_TARGET, ?error, "failed to dial peer");
+
+                                // Same as for `DialPeer`: the handle accepted the request, so the
+                                // refusal is reported to the protocols as a dial failure.
+                                if let (false, Some(peer)) = (
+                                    std::matches!(error, Error::AlreadyConnected),
+                                    PeerId::try_from_multiaddr(&address),
+                                ) {
+                                    for context in self.protocols.values() {
+                                        if context
+                                            .tx
+                                            .try_send(InnerTransportEvent::DialFailure {
+                                                peer,
+                                                addresses: vec![address.clone()],
+                                            })
+                                            .is_err()
+                                        {
+                                            let _ = context
+                                                .tx
+                                                .send(InnerTransportEvent::DialFailure {
+                                                    peer,
+                                                    addresses: vec![address.clone()],
+                                                })
+                                                .await;
+                                        }
+                                    }
+                                }
                             }
                         }
                         InnerTransportManagerCommand::UnregisterProtocol { protocol } => {
